@@ -137,8 +137,23 @@ func errClass(err error) string {
 	return "other"
 }
 
+// slowRetries: how many runs that hit the watchdog may still be repeated with a six times longer one before they are
+// reported as "did not return" (a loaded machine stretches a 10 000-iteration run past the watchdog; a hang stays a hang).
+var slowRetries = 3
+
 // observeCompute runs the real Compute under a watchdog and appends the observation.
 func observeCompute(w *W, c *sparse.Matrix, p *sparse.Vector, a, e float64, o copts, watchdog time.Duration) string {
+	mark := len(w.String())
+	out := observeComputeOnce(w, c, p, a, e, o, watchdog)
+	if out == "timeout" && slowRetries > 0 {
+		slowRetries--
+		w.truncate(mark)
+		out = observeComputeOnce(w, c, p, a, e, o, 6*watchdog)
+	}
+	return out
+}
+
+func observeComputeOnce(w *W, c *sparse.Matrix, p *sparse.Vector, a, e float64, o copts, watchdog time.Duration) string {
 	sink := &logSink{}
 	logger := zerolog.New(sink).Level(zerolog.TraceLevel)
 	ctx, cancel := context.WithCancel(logger.WithContext(context.Background()))
